@@ -50,11 +50,16 @@ def model_check(chk, tier):
                     "NeverWidens, FinalInside, ProgressShrinks, QuiescentDefinitive, CacheSound" % (n, v, ops))
 
 
-def build(chains, u):
-    """A real EditSequence over scripted sub-edits following `chains`, with cost_upper_bound u."""
+_CLASSES = []
+
+
+def script_classes():
+    """(SNode, ScriptEdit): a leaf-like node of a given size and an edit that follows a scripted chain of intervals."""
+    if _CLASSES:
+        return _CLASSES[0]
     import graphtage
     from graphtage.bounds import Range
-    from graphtage.edits import AbstractEdit, EditSequence
+    from graphtage.edits import AbstractEdit
 
     class SNode(graphtage.TreeNode):
         def __init__(self, idx, size):
@@ -80,11 +85,16 @@ def build(chains, u):
             return "S%d" % self.idx
 
     class ScriptEdit(AbstractEdit):
-        def __init__(self, idx, chain):
+        def __init__(self, idx, chain, early=False):
             self.idx = idx
             self.chain = chain
             self.p = 0
+            self.early = early
             super().__init__(from_node=SNode(idx, 0), to_node=SNode(idx, 0))
+
+        def is_complete(self):
+            # early: "my shape is final" long before the cost is (as MultiSetEdit once its matching is known)
+            return True if self.early else super().is_complete()
 
         def bounds(self):
             lo, hi = self.chain[self.p]
@@ -99,7 +109,16 @@ def build(chains, u):
         def print(self, formatter, printer):
             printer.write("E%d" % self.idx)
 
-    subs = [ScriptEdit(i + 1, c) for i, c in enumerate(chains)]
+    _CLASSES.append((SNode, ScriptEdit))
+    return _CLASSES[0]
+
+
+def build(chains, u, early=False):
+    """A real EditSequence over scripted sub-edits following `chains`, with cost_upper_bound u; early: the sub-edits claim
+    to be complete from the start."""
+    from graphtage.edits import EditSequence
+    SNode, ScriptEdit = script_classes()
+    subs = [ScriptEdit(i + 1, c, early) for i, c in enumerate(chains)]
     # cost_upper_bound = from_node.total_size + 1 (to_node None)
     seq = EditSequence(from_node=SNode(0, u - 1), to_node=None, edits=iter(subs))
     return seq, subs
@@ -110,7 +129,7 @@ def projection(seq, subs):
             "ptr": [s.p + 1 for s in subs]}
 
 
-def replay(beh):
+def replay(beh, early=False):
     """Returns (drift messages, observation {env, ops, out, raised, exc})."""
     from harness.watchdog import Expired, deadline
     drift = []
@@ -118,7 +137,7 @@ def replay(beh):
     obs = {"env": json.dumps([beh["chains"], beh["U"]]), "ops": ops, "raised": False, "out": "", "exc": ""}
     try:
         with deadline(10.0):
-            seq, subs = build(beh["chains"], beh["U"])
+            seq, subs = build(beh["chains"], beh["U"], early)
             for k, h in enumerate(beh["hist"]):
                 if h["op"] == "tighten":
                     got = [1 if seq.tighten_bounds() else 0]
@@ -150,10 +169,10 @@ def replay(beh):
     return drift, obs
 
 
-def bounded_trace(chains, u, edits_first=False):
+def bounded_trace(chains, u, edits_first=False, early=False):
     """A BoundedTrace recording ({final, ev}) of a real EditSequence over the environment, driven to quiescence."""
     from harness.watchdog import Expired, deadline
-    seq, subs = build(chains, u)
+    seq, subs = build(chains, u, early)
     ev = []
     final = sum(c[-1][0] for c in chains)
     try:
